@@ -19,12 +19,22 @@
    right products), and every pipeline made of them, any length, any order: [C13_pipeline_local].
    zncc: the model's cell is the exact integer triple (cov, varL, varR); the cost is [zq] of the triple, for
    EVERY function zq (the float evaluation of cov / sqrt(varL varR) is data, like the bilateral kernels).
-   Not covered by a theorem (metamorphic runs only): the vertical flip. *)
+   Vertical flip (last clause of the property): [C13_pipeline_vflip] -- every pipeline of these steps, run on the pair of
+   images turned upside down ([vflip]: row r of the flipped raster = row nr - 1 - r), gives at EVERY pixel (r, c) of
+   the raster (first / last rows and image margins included: no cone condition) what the run on the pair gives at
+   (nr - 1 - r, c), under the side conditions [step_flip_wf]: odd windows (matching cost: cfg_wf; median filter_size
+   odd; bilateral: the EFFECTIVE window min(rows, cols, int(3 sigma_space + 1)) odd and a row-symmetric spatial
+   kernel), census window 1/3/5, cbca_distance >= 1, and the two border statements of criteria.mask_border having the
+   same effect (re-proved on the regenerated flag sites: C13_border_flags_symmetric).  "The same": [pix_eqv] --
+   radiometry, masks, cost curves, validity flags EQUAL; the two disparities the same rational NUMBER (a median of
+   an even count and a bilateral mean are fractions whose representation depends on the reading order of the
+   window, their value does not).  An even window is not symmetric about its centre: C13_vflip_even_window_refuted. *)
 From Coq Require Import ZArith QArith List Bool.
 From Pandora Require Import Spec.Local Spec.Cost Model.MatchingCost Model.Local.
 From Pandora Require Import Proofs.LocalP Proofs.LocalCostP Proofs.LocalStepsP Proofs.MatchingCostP.
 From Pandora Require Model.Criteria Model.Refine Model.CrossCheck Gen.Constants Gen.Flags Gen.RefineConsts.
 From Pandora Require Model.Cbca Spec.Cbca Proofs.CbcaP Proofs.LocalCbcaP.
+From Pandora Require Model.Filters Proofs.LocalFlipCostP Proofs.LocalFlipCbcaP Proofs.LocalFlipP.
 Import ListNotations.
 Open Scope Z_scope.
 
@@ -326,6 +336,142 @@ Qed.
 Theorem C13_radii_agree : forall G steps, pipe_rad G steps = kpipe_rad G (map forget steps).
 Proof. exact pipe_rad_forget. Qed.
 
+(* ---------------------------------------------------------------- the vertical flip *)
+
+Import Proofs.LocalFlipP.
+
+(* the calculus: the raster a step produces from a flipped copy (pixel by pixel up to E) of a raster is a flipped copy of
+   what it produces from the raster, hence pipelines of any length *)
+Theorem C13_vflip_pipeline_calculus : forall A (E : A -> A -> Prop) nr nc (steps : list (op A A)),
+  Forall (flip_ok_at nr nc E) steps -> flip_ok_at nr nc E (run_pipe steps).
+Proof. exact pipeline_flip_at. Qed.
+
+(* SPEC of the matching cost (C02) on a pair turned upside down (inside the image; nothing is assumed outside):
+   [computable] at (r, c) is [computable] at (ny - 1 - r, c) of the pair, and so is every sum over the two windows
+   (sad, ssd, the moments of zncc) when the cost is computable *)
+Theorem C13_cost_spec_vflip : forall ny nx w s L R L' R' mL mR mL' mR' vp nd gmin gmax gmin' gmax' r c D,
+  0 < w -> Z.odd w = true -> 0 < s ->
+  (forall a b, in_image ny nx a b = true -> L' a b = L (ny - 1 - a) b /\ mask_agree mL' mL a b (ny - 1 - a) b) ->
+  (forall a b, in_image ny nx a b = true -> R' a b = R (ny - 1 - a) b /\ mask_agree mR' mR a b (ny - 1 - a) b) ->
+  gmin' r c = gmin (ny - 1 - r) c /\ gmax' r c = gmax (ny - 1 - r) c ->
+  computable ny nx w s mL' mR' vp nd gmin' gmax' r c D = computable ny nx w s mL mR vp nd gmin gmax (ny - 1 - r) c D
+  /\ (computable ny nx w s mL' mR' vp nd gmin' gmax' r c D = true ->
+      forall f, (sum_win w s L' R' f r c D == sum_win w s L R f (ny - 1 - r) c D)%Q).
+Proof.
+  intros ny nx w s L R L' R' mL mR mL' mR' vp nd gmin gmax gmin' gmax' r c D Hw Ho Hs HL HR Hg. split.
+  - exact (LocalFlipCostP.computable_flip ny nx w s L R L' R' mL mR mL' mR' vp nd gmin gmax gmin' gmax' r c D Hw Ho HL HR Hg).
+  - intros Hc f. unfold computable in Hc. rewrite !andb_true_iff in Hc. destruct Hc as [[[H1 H2] _] _].
+    exact (LocalFlipCostP.sum_win_flip ny nx w s L R L' R' mL mR mL' mR' nd r c D Hw Ho Hs HL HR H1 H2 f).
+Qed.
+
+(* SPEC of cbca (C11): on filtered images turned upside down (compared as numbers) the aggregated cost of (r, c) is
+   the aggregated cost of the mirrored pixel -- the vertical arms are exchanged, the support region is mirrored *)
+Theorem C13_cbca_spec_vflip : forall (IL' IL IR' IR : Spec.Cbca.fimg) nr dist inten shift cost' cost r c,
+  Spec.Cbca.f_nr IL = nr ->
+  (forall r c, LocalFlipCbcaP.oqe (Spec.Cbca.px IL' r c) (Spec.Cbca.px IL (nr - 1 - r) c)) ->
+  (forall r c, LocalFlipCbcaP.oqe (Spec.Cbca.px IR' r c) (Spec.Cbca.px IR (nr - 1 - r) c)) ->
+  (forall r c, 0 <= r < nr -> 0 <= c < Spec.Cbca.f_nc IL -> cost' r c = cost (nr - 1 - r) c) ->
+  0 <= r < nr -> 0 <= c < Spec.Cbca.f_nc IL ->
+  Spec.Cbca.agg_spec IL' IR' dist inten shift cost' r c = Spec.Cbca.agg_spec IL IR dist inten shift cost (nr - 1 - r) c.
+Proof. exact LocalFlipCbcaP.agg_spec_flip. Qed.
+
+(* np.nanmedian depends neither on the order in which the window is read nor on the fractions holding its values *)
+Theorem C13_nanmedian_order_independent : forall l' l, oqperm l' l -> oq_eqv (Filters.nanmedian l') (Filters.nanmedian l).
+Proof. exact nanmedian_oqperm. Qed.
+
+(* the two statements of criteria.mask_border that paint the first and the last rows (data[:offset, :] and
+   data[-offset:, :]) have the same effect on a flag: proved on the flag sites regenerated from the tree under test *)
+Theorem C13_border_flags_symmetric : bord_sym (Criteria.mkEnv Flags.consts Flags.flag_sites).
+Proof. intro m. vm_compute. reflexivity. Qed.
+
+(* per step, at every pixel of the raster *)
+Theorem C13_mc_step_vflip : forall m E G, cfg_wf G -> meas_wf G m -> bord_sym E -> flip_ok pix_eqv (mc_step m E G).
+Proof. exact mc_step_flip. Qed.
+
+Theorem C13_cbca_step_vflip : forall dist inten G, cfg_wf G -> 1 <= dist -> flip_ok pix_eqv (cbca_step dist inten G).
+Proof. exact cbca_step_flip. Qed.
+
+Theorem C13_wta_step_vflip : forall mx B invalid G, 1 <= B -> flip_ok pix_eqv (wta_step mx B invalid G).
+Proof. exact wta_step_flip. Qed.
+
+Theorem C13_refine_step_vflip : forall K me m G, flip_ok pix_eqv (refine_step K me m G).
+Proof. exact refine_step_flip. Qed.
+
+(* median filter: odd filter_size (an even window has one more row above its centre than below) *)
+Theorem C13_median_step_vflip : forall inv B w, 1 <= B -> 0 < w -> Z.odd w = true -> flip_ok pix_eqv (median_step inv B w).
+Proof. exact median_step_flip. Qed.
+
+(* bilateral filter on rasters of nr x nc pixels: the exact condition is that the EFFECTIVE window
+   win = min(nr, nc, int(3 sigma_space + 1)) is odd (an odd int(3 sigma_space + 1) clipped by a smaller image to an
+   even size is not enough); the spatial kernel (data) is symmetric in rows, the range kernel (data) is a function of
+   the number it is given *)
+Theorem C13_bilateral_step_vflip : forall inv B sigma sk rk nr nc, 1 <= B ->
+  (let win := Filters.win_width nr nc sigma in
+   0 < win /\ Z.odd win = true /\
+   (forall a b, 0 <= a < win -> 0 <= b < win -> (sk (win - 1 - a)%Z b == sk a b)%Q) /\
+   (forall x y, (x == y)%Q -> (rk x == rk y)%Q)) ->
+  flip_ok_at nr nc pix_eqv (bilateral_step inv B sigma sk rk).
+Proof. exact bilateral_step_flip. Qed.
+
+Theorem C13_xcheck_step_vflip : forall thr G, flip_ok pix_eqv (xcheck_step thr G).
+Proof. exact xcheck_step_flip. Qed.
+
+(* MAIN (last clause of the property).  For every pipeline, of any length and in any order, of the step kinds of the
+   property, every raster F of pixel states (any size) and every pixel (r, c) of it: the pipeline run on F turned
+   upside down writes at (r, c) what the run on F writes at (nr - 1 - r, c) -- cost curves and validity flags equal,
+   disparities the same numbers, left and right products -- under the side conditions of the steps *)
+Theorem C13_pipeline_vflip : forall V steps (F : frame pix), env_wf V ->
+  Forall (step_flip_wf V (f_nr F) (f_nc F)) steps ->
+  forall r c, in_frame F r c ->
+  pix_eqv (run_pipe (map (step_op V) steps) (vflip F) r c) (run_pipe (map (step_op V) steps) F (frow F r) c).
+Proof. exact pipe_vflip. Qed.
+
+(* the same for ANY raster F' that is a flipped copy of F up to the representation of the disparities *)
+Theorem C13_pipeline_flipped : forall V steps (F' F : frame pix), env_wf V ->
+  Forall (step_flip_wf V (f_nr F) (f_nc F)) steps -> flipped pix_eqv F' F ->
+  forall r c, in_frame F r c ->
+  pix_eqv (run_pipe (map (step_op V) steps) F' r c) (run_pipe (map (step_op V) steps) F (frow F r) c).
+Proof. exact pipe_flip. Qed.
+
+(* the side conditions, spelled out *)
+Theorem C13_vflip_side_conditions : forall V nr nc s,
+  step_flip_wf V nr nc s =
+  match s with
+  | SMc m => meas_wf (e_cfg V) m /\ bord_sym (e_flags V)
+  | SCbca dist _ => 1 <= dist
+  | SMedian w => 0 < w /\ Z.odd w = true
+  | SBilateral sigma sk rk => bil_flip_ok nr nc sigma sk rk
+  | _ => True
+  end.
+Proof. intros V nr nc s. destruct s; reflexivity. Qed.
+
+(* the oddness condition is needed: a bilateral filter whose window is even (sigma_space = 1/2: int(2.5) = 2, constant
+   kernels: the filter is the mean of the 2 x 2 window whose LAST pixel is the centre) does not commute with the flip *)
+Definition even_F : frame pix :=
+  mkFrame 3 3 (fun r c => mkPix 0 0 0 0 [] [] (Some (inject_Z (r * r))) (Some 0%Q) 0 0).
+Theorem C13_vflip_even_window_refuted :
+  Filters.win_width 3 3 (1 # 2) = 2 /\
+  ~ pix_eqv (bilateral_step 963 50 (1 # 2) (fun _ _ => 1%Q) (fun _ => 1%Q) (vflip even_F) 1 1)
+            (bilateral_step 963 50 (1 # 2) (fun _ _ => 1%Q) (fun _ => 1%Q) even_F (frow even_F 1) 1).
+Proof.
+  split; [vm_compute; reflexivity|]. intros (_ & _ & _ & H & _). vm_compute in H. discriminate.
+Qed.
+
+(* ... and the window that counts is the EFFECTIVE one: sigma_space = 2/3 asks for int(3) = 3 pixels (odd), a raster
+   of 2 rows clips it to 2 (bilateral.py: win_width = min(rows, cols, int(3 sigma_space + 1))): the only filtered row
+   is row 1, of the raster and of its flipped copy alike, so the flip is not respected (finding
+   bilateral_window_clipped_to_even_size, replayed on the real code by the check) *)
+Definition clipped_F : frame pix :=
+  mkFrame 2 3 (fun r c => mkPix 0 0 0 0 [] [] (Some (inject_Z r)) (Some 0%Q) 0 0).
+Theorem C13_vflip_clipped_window_refuted :
+  Qround.Qfloor (3 * (2 # 3) + 1) = 3 /\ Filters.win_width 2 3 (2 # 3) = 2 /\
+  ~ pix_eqv (bilateral_step 963 50 (2 # 3) (fun _ _ => 1%Q) (fun _ => 1%Q) (vflip clipped_F) 1 1)
+            (bilateral_step 963 50 (2 # 3) (fun _ _ => 1%Q) (fun _ => 1%Q) clipped_F (frow clipped_F 1) 1).
+Proof.
+  split; [vm_compute; reflexivity|]. split; [vm_compute; reflexivity|].
+  intros (_ & _ & _ & H & _). vm_compute in H. discriminate.
+Qed.
+
 (* ---------------------------------------------------------------- non-vacuity *)
 
 (* the environment of the tree under test: regenerated flag sites and constants, block sizes *)
@@ -396,6 +542,25 @@ Example C13_example_run_cbca :
       /\ p_cvL q = [Some (25 # 9); Some (17 # 9); Some (8 # 3)]%Q /\ p_dL q = Some 0%Q /\ p_dR q = Some 1%Q).
 Proof. vm_compute. split; [reflexivity|]. repeat split; reflexivity. Qed.
 
+(* the flip: the side conditions hold for the example pipelines on 30 x 40 rasters (with a bilateral filter of window 3
+   and constant kernels); the model, run: cbca (distance 2), winner-takes-all on the 6 x 10 raster turned
+   upside down gives at (1, 4) the cost curves, disparities and flags it gives at (4, 4) of the raster *)
+Example C13_example_vflip :
+  Forall (step_flip_wf ex_env 30 40) ex_steps /\ Forall (step_flip_wf ex_env 30 40) ex_steps_cbca
+  /\ step_flip_wf ex_env 30 40 (SBilateral (7 # 10) (fun _ _ => 1%Q) (fun _ => 1%Q))
+  /\ (let steps := map (step_op ex2_env) ex3_steps in
+      let p := run_pipe steps (vflip ex3_F) 1 4 in
+      let q := run_pipe steps ex3_F 4 4 in
+      (p_cvL p, p_cvR p, p_dL p, p_dR p, p_fL p, p_fR p) = (p_cvL q, p_cvR q, p_dL q, p_dR q, p_fL q, p_fR q)
+      /\ p_dL q <> None /\ frow ex3_F 1 = 4).
+Proof.
+  split. { repeat constructor; cbn; try discriminate; try reflexivity; exact C13_border_flags_symmetric. }
+  split. { repeat constructor; cbn; try discriminate; try reflexivity; exact C13_border_flags_symmetric. }
+  split. { unfold step_flip_wf, bil_flip_ok. cbv zeta. split; [vm_compute; reflexivity|]. split; [vm_compute; reflexivity|].
+           split; intros; reflexivity. }
+  vm_compute. repeat split; try reflexivity; discriminate.
+Qed.
+
 Print Assumptions C13_local_compose.
 Print Assumptions C13_local_pointwise.
 Print Assumptions C13_chain_local.
@@ -424,3 +589,20 @@ Print Assumptions C13_pipeline_local.
 Print Assumptions C13_pipeline_local2.
 Print Assumptions C13_pipeline_crop.
 Print Assumptions C13_radii_agree.
+Print Assumptions C13_vflip_pipeline_calculus.
+Print Assumptions C13_cost_spec_vflip.
+Print Assumptions C13_cbca_spec_vflip.
+Print Assumptions C13_nanmedian_order_independent.
+Print Assumptions C13_border_flags_symmetric.
+Print Assumptions C13_mc_step_vflip.
+Print Assumptions C13_cbca_step_vflip.
+Print Assumptions C13_wta_step_vflip.
+Print Assumptions C13_refine_step_vflip.
+Print Assumptions C13_median_step_vflip.
+Print Assumptions C13_bilateral_step_vflip.
+Print Assumptions C13_xcheck_step_vflip.
+Print Assumptions C13_pipeline_vflip.
+Print Assumptions C13_pipeline_flipped.
+Print Assumptions C13_vflip_side_conditions.
+Print Assumptions C13_vflip_even_window_refuted.
+Print Assumptions C13_vflip_clipped_window_refuted.
